@@ -338,6 +338,9 @@ func c13CacheProbes(r *ev.Run, p *prng.R, batch, round int) {
 	o.MaxCols = 7
 	s := tspace.Gen(p, o)
 	t := s.Tables[0]
+	if round%4 == 3 {
+		onlyAtoms(t) // a model without slice or map fields (pointers and scalars only)
+	}
 	t.Indexes = [][]string{{"name"}}
 	var ci []model.ClientIndex
 	for _, c := range t.Cols {
@@ -674,6 +677,37 @@ func cloneLaws(r *ev.Run, kind string, m model.Model, desc string) {
 	}
 }
 
+// onlyAtoms reduces a table to its scalar and optional columns and makes sure it has two
+// optional ones: the run-time model then has no slice and no map field.
+func onlyAtoms(t *tspace.Table) {
+	var keep []*tspace.Col
+	opt := 0
+	for _, c := range t.Cols {
+		if c.IsScalar() || c.IsOptional() {
+			keep = append(keep, c)
+			if c.IsOptional() {
+				opt++
+			}
+		}
+	}
+	for i, typ := range []string{"string", "integer"} {
+		if opt+i < 2 {
+			keep = append(keep, &tspace.Col{Name: fmt.Sprintf("opt_extra%d", i), Key: tspace.Base{Type: typ}, Min: 0, Max: 1})
+		}
+	}
+	t.Cols = keep
+	t.Indexes = nil
+}
+
+// handAtoms is a hand-written model with scalar and optional columns only.
+type handAtoms struct {
+	UUID    string  `ovsdb:"_uuid"`
+	Name    string  `ovsdb:"name"`
+	Tag     *int    `ovsdb:"tag"`
+	Enabled *bool   `ovsdb:"enabled"`
+	Note    *string `ovsdb:"note"`
+}
+
 func c13CloneLaws(r *ev.Run, p *prng.R) {
 	// run-time models over the whole type space (JSON clone path)
 	o := tspace.Full(1)
@@ -682,6 +716,9 @@ func c13CloneLaws(r *ev.Run, p *prng.R) {
 	o.MaxCols = 8
 	s := tspace.Gen(p, o)
 	t := s.Tables[0]
+	if p.Chance(1, 3) {
+		onlyAtoms(t)
+	}
 	m, err := dyn.Build(s, nil)
 	if err == nil {
 		g := gen.New(p, s)
@@ -734,6 +771,27 @@ func c13CloneLaws(r *ev.Run, p *prng.R) {
 			b := p.Bool()
 			h.Enabled = &b
 			desc = append(desc, "enabled")
+		}
+		cloneLaws(r, "hand-written-struct", h, strings.Join(desc, ","))
+	}
+	// hand-written struct without slice or map fields
+	for i := 0; i < 3; i++ {
+		h := &handAtoms{UUID: p.UUID(), Name: fmt.Sprintf("n%d", p.Intn(5))}
+		desc := []string{"atoms"}
+		if p.Chance(2, 3) {
+			x := p.Intn(3)
+			h.Tag = &x
+			desc = append(desc, "tag")
+		}
+		if p.Chance(2, 3) {
+			b := p.Bool()
+			h.Enabled = &b
+			desc = append(desc, "enabled")
+		}
+		if p.Chance(2, 3) {
+			n := "note"
+			h.Note = &n
+			desc = append(desc, "note")
 		}
 		cloneLaws(r, "hand-written-struct", h, strings.Join(desc, ","))
 	}
